@@ -69,6 +69,19 @@ pub fn run(tier: Tier, filter: Filter) -> i32 {
         .filter(|sc| filter.schema.is_none_or(|i| i == sc.idx))
         .map(|sc| schema_sweep(sc, &bu, &filter))
         .reduce(Stats::default, Stats::merge);
+    // long payloads, in a child process with a 1 MiB allocation limit
+    let st = if filter.schema.is_none() || filter.schema.is_some_and(|i| i >= 1_000_000) {
+        let out = format!("{}/harness/target/c06_long.json", ev::VERIF_DIR);
+        let _ = std::fs::remove_file(&out);
+        let exe = std::env::current_exe().unwrap_or_else(|e| ev::machinery(&e.to_string()));
+        let status = std::process::Command::new(exe).args(["C06-LONG", &out]).status().unwrap_or_else(|e| ev::machinery(&format!("long-payload child: {e}")));
+        match crate::c05::read_stats(&out) {
+            Some((s2, _)) if status.success() => st.merge(s2),
+            _ => ev::machinery(&format!("long-payload child failed: {status:?}")),
+        }
+    } else {
+        st
+    };
     let rep = Report {
         id: "C06".into(),
         tier,
@@ -80,6 +93,46 @@ pub fn run(tier: Tier, filter: Filter) -> i32 {
         extra: json!({}),
     };
     ev::finish(rep, st, start)
+}
+
+/// Long payloads (a `bytes`/`string` of 4096, 4097 and 70 000 bytes in every position a payload can take):
+/// the valid encoding, and cuts near the start, in the middle and near the end of it. Runs in a child
+/// process because it needs a larger allocation limit than the main sweep (the limit is write-once).
+pub fn long_child(out_path: &str) -> i32 {
+    apache_avro::util::max_allocation_bytes(1 << 20);
+    let mut st = Stats::default();
+    let filter = Filter::default();
+    let shapes: Vec<(&str, serde_json::Value, fn(V) -> V)> = vec![
+        ("long-bytes", json!("bytes"), |p| p),
+        ("long-string", json!("string"), |p| p),
+        ("long-last-field", json!({"type":"record","name":"L1","fields":[{"name":"a","type":"int"},{"name":"s","type":"string"}]}), |p| V::Record(vec![V::Int(1), p])),
+        ("long-first-field", json!({"type":"record","name":"L2","fields":[{"name":"s","type":"bytes"},{"name":"a","type":"int"}]}), |p| V::Record(vec![p, V::Int(1)])),
+        ("long-array-item", json!({"type":"array","items":"string"}), |p| V::Array(vec![p])),
+        ("long-map-value", json!({"type":"map","values":"bytes"}), |p| V::Map(vec![("k".to_string(), p)])),
+        ("long-union-branch", json!(["null","string"]), |p| V::Union(1, Box::new(p))),
+    ];
+    for (k, (label, j, wrap)) in shapes.into_iter().enumerate() {
+        let (s, env) = crate::ast::refparse(&j).unwrap_or_else(|e| ev::machinery(&format!("long payload schema: {e:?}")));
+        let sc = Sc { idx: 1_000_000 + k, label: label.to_string(), text: j.to_string(), json: j.clone(), s, env };
+        let Ok(schema) = corpus::parse_lib(&sc.text) else { continue };
+        let is_string = sc.text.contains("\"string\"");
+        let mut idx = 0usize;
+        for len in [4096usize, 4097, 70_000] {
+            let payload = if is_string { V::Str("a".repeat(len)) } else { V::Bytes(vec![0x61; len]) };
+            let v = wrap(payload);
+            let enc = refbin::encode(&v, &sc.s, &sc.env);
+            let mut cuts: Vec<usize> = (0..=6).chain([len / 2, enc.len() - 3, enc.len() - 2, enc.len() - 1, enc.len()]).collect();
+            cuts.sort();
+            cuts.dedup();
+            for c in cuts {
+                judge(&sc, &schema, &enc[..c], "long-payload", idx, &mut st);
+                idx += 1;
+            }
+        }
+        let _ = &filter;
+    }
+    crate::c05::write_stats(out_path, &st, 0);
+    0
 }
 
 /// With VERIF_VERBOSE: names the schemas whose sweep took more than a second.
@@ -127,6 +180,20 @@ fn schema_sweep(sc: &Sc, bu: &[Vec<u8>], filter: &Filter) -> Stats {
         for m in mutations(&enc) {
             if seen.insert(m.clone()) {
                 one(&m, "mutation", &mut st);
+            }
+        }
+        // other spec-legal layouts of the same value (several blocks, negative counts with byte sizes) and
+        // every truncation of them: the library never writes these, both decoders must read them alike
+        let mut complete = true;
+        for l in refbin::layouts(v, &sc.s, &sc.env, 6, &mut complete).into_iter().skip(1) {
+            if l.len() > 40 {
+                continue;
+            }
+            for cut in 0..=l.len() {
+                let m = l[..cut].to_vec();
+                if seen.insert(m.clone()) {
+                    one(&m, "layout", &mut st);
+                }
             }
         }
     }
@@ -191,7 +258,7 @@ fn deser_bu_len() -> usize {
 }
 
 /// Bytes the schema-aware deserializer consumes for one datum, or its error.
-fn deser_decode(schema: &apache_avro::Schema, bytes: &[u8]) -> Result<usize, String> {
+pub fn deser_decode(schema: &apache_avro::Schema, bytes: &[u8]) -> Result<usize, String> {
     match guarded(|| {
         let r = apache_avro::reader::datum::GenericDatumReader::builder(schema).build()?;
         let mut cur: &[u8] = bytes;
@@ -204,11 +271,24 @@ fn deser_decode(schema: &apache_avro::Schema, bytes: &[u8]) -> Result<usize, Str
     }
 }
 
+fn deser_decode_chunked(schema: &apache_avro::Schema, bytes: &[u8], chunk: usize) -> Result<usize, String> {
+    match guarded(|| {
+        let r = apache_avro::reader::datum::GenericDatumReader::builder(schema).build()?;
+        let mut src = crate::c01::ChunkReader { data: bytes, pos: 0, chunk };
+        r.read_deser::<Dyn>(&mut src)?;
+        Ok::<_, apache_avro::Error>(src.pos)
+    }) {
+        Ok(Ok(n)) => Ok(n),
+        Ok(Err(e)) => Err(format!("error: {e}")),
+        Err(p) => Err(format!("panic: {p}")),
+    }
+}
+
 /// The clause "the two decoders agree on whether a byte string is a complete datum", judged on framing:
 /// a truncated datum is an error for both; a datum the strict reference decoder and the generic decoder
 /// accept is accepted by the deserializer with the same length; two Ok verdicts consume the same bytes.
 /// Inputs only one of them rejects for its *content* (UUID text, big-decimal payload) give no verdict.
-fn judge_deser(sc: &Sc, bytes: &[u8], origin: &str, vi: usize, generic: &Result<(apache_avro::types::Value, usize), String>, de: &Result<usize, String>, strict: &Result<V, DecErr>, strict_len: usize, st: &mut Stats) {
+fn judge_deser(sc: &Sc, schema: &apache_avro::Schema, bytes: &[u8], origin: &str, vi: usize, generic: &Result<(apache_avro::types::Value, usize), String>, de: &Result<usize, String>, strict: &Result<V, DecErr>, strict_len: usize, st: &mut Stats) {
     st.transitions += 1;
     let order = 1u64 << 60 | (sc.idx as u64) << 32 | vi as u64;
     let failed: Option<&str> = match (de, generic, strict) {
@@ -217,6 +297,18 @@ fn judge_deser(sc: &Sc, bytes: &[u8], origin: &str, vi: usize, generic: &Result<
         (Ok(dn), Ok((_, gn)), _) if dn != gn => Some("generic decoder and schema-aware deserializer consume different lengths for the same input"),
         (Err(_), Ok((_, gn)), Ok(_)) if *gn == strict_len => Some("a complete datum (reference decoder and generic decoder agree) is rejected by the schema-aware deserializer"),
         _ => None,
+    };
+    // what the deserializer accepts from a slice it must accept, with the same length, from a source that
+    // delivers one byte per read
+    let failed = match (failed, de) {
+        (None, Ok(dn)) => {
+            st.transitions += 1;
+            match deser_decode_chunked(schema, bytes, 1) {
+                Ok(n) if n == *dn => None,
+                _ => Some("the schema-aware deserializer reads a datum from a slice but not from a source that delivers one byte per read"),
+            }
+        }
+        (f, _) => f,
     };
     match failed {
         None => st.outcome(if de.is_ok() { "deser-ok-agrees" } else { "deser-err" }),
@@ -255,7 +347,7 @@ fn judge(sc: &Sc, schema: &apache_avro::Schema, bytes: &[u8], origin: &str, vi: 
     let mut c = Cur::new(bytes);
     let strict = refbin::decode(&mut c, &sc.s, &sc.env);
     if let Some(de) = &de {
-        judge_deser(sc, bytes, origin, vi, &lib, de, &strict, c.pos.min(bytes.len()), st);
+        judge_deser(sc, schema, bytes, origin, vi, &lib, de, &strict, c.pos.min(bytes.len()), st);
     }
     let (lv, ln) = match lib {
         Ok(x) => x,
